@@ -194,6 +194,17 @@ func execMembership(t *testing.T, p *Plan) *Result {
 		}
 		pos := map[string]int{}
 		ambiguous := map[string]bool{}
+		var baseScript func(party string, m *sipwire.Msg, id string) []respPlan
+		lateIDs := map[string]bool{}
+		vanished := "" // an address that vanished and then sent a late answer: the non-member of the attribution probe
+		poolAddr := map[string]bool{}
+		for n, pool := range dnsPool {
+			for _, ip := range pool {
+				poolAddr[ip+":5070"] = true
+				poolAddr[ip+":5080"] = true
+			}
+			_ = n
+		}
 		bindFailed := false // a backend socket could not be made at some point: some resolved address may be missing
 		type pinnedDialog struct {
 			ids     dlgIDs
@@ -361,7 +372,17 @@ func execMembership(t *testing.T, p *Plan) *Result {
 						}
 					}
 					// answer from a member other than the one dispatched to (if there is one), and from a non-member
-					for _, from := range attributionSources(S, ems[0], models, names, portOf) {
+					srcs := attributionSources(S, ems[0], models, names, portOf)
+					if vanished != "" {
+						stillGone := true
+						for _, m := range S {
+							stillGone = stillGone && m != vanished
+						}
+						if stillGone {
+							srcs = append(srcs[:1:1], vanished)
+						}
+					}
+					for _, from := range srcs {
 						member := false
 						for _, s := range S {
 							if s == from {
@@ -399,7 +420,7 @@ func execMembership(t *testing.T, p *Plan) *Result {
 						}
 					}
 				}
-				d.respScript = nil
+				d.respScript = baseScript
 			}
 			// (c) socket accounting
 			w.Stats["judged:C19"]++
@@ -421,12 +442,72 @@ func execMembership(t *testing.T, p *Plan) *Result {
 					v("C19", "backend-socket-not-closed", step, sig, "after %s the rotation holds %d backends but the proxy keeps %d sockets towards backends open: %v", step, len(S), open, locals)
 				}
 			}
+			if scheme == "tcp" {
+				// "vanished ones removed and closed": no connection the proxy dialled towards an address that is no longer
+				// in the rotation stays open - however often it had to reconnect to it before
+				in := map[string]bool{}
+				for _, m := range S {
+					in[m] = true
+				}
+				for _, e := range w.N.Conns {
+					if e.Proxy && e.Dialer && !e.Closed() && !e.IsReset() && !in[e.Remote.String()] && !e.Peer.Closed() {
+						if _, pool := poolAddr[e.Remote.String()]; pool {
+							v("C19", "backend-connection-not-closed", step, sig, "after %s %s is not in the rotation %v, but connection %d which the proxy dialled to it is still open", step, e.Remote.String(), S, e.ID)
+							break
+						}
+					}
+				}
+				// now and then the backends restart: every connection towards them is reset; the next dispatch reconnects
+				if w.K.Draw(4) == 0 {
+					nreset := 0
+					for _, e := range w.N.Conns {
+						if !e.Proxy && !e.Dialer && !e.Closed() && !e.IsReset() && e.Peer.Proxy {
+							if _, pool := poolAddr[e.Local.String()]; pool {
+								e.Reset()
+								nreset++
+							}
+						}
+					}
+					if nreset > 0 {
+						w.stat("probe:backend-connections-reset")
+						w.K.Settle(time.Second)
+					}
+				}
+			}
 		}
+		// requests whose id starts with "late" are left unanswered by the backends: the harness answers them by hand,
+		// after the next resolution step, from the address they were dispatched to
+		baseScript = func(party string, m *sipwire.Msg, id string) []respPlan {
+			if strings.HasPrefix(id, "q") && lateIDs[id] {
+				return nil
+			}
+			return []respPlan{{delay: 200 * time.Microsecond, status: 200, expires: -1}}
+		}
+		d.respScript = baseScript
 		probeAll("start")
 		for i := range p.Ops {
 			op := &p.Ops[i]
 			if op.Kind != "poll" || w.dead() {
 				continue
+			}
+			// a call is ringing at some backend while the resolution changes: its late provisional answer comes from
+			// that backend's address afterwards - if the address has vanished by then, the answer must not make the
+			// proxy recognise it as a backend again
+			var lateReq *Emitted
+			lateFrom := ""
+			if scheme == "udp" && prop != "C05" && len(modelSet()) > 0 && op.I["attr"] != 1 {
+				seq++
+				id := fmt.Sprintf("q%d", seq)
+				lateIDs[id] = true
+				ids := dlgIDs{callID: "late-" + id, fromURI: "sip:l@caller.test", toURI: "sip:svc@svc.example.com", fromTag: "lt" + id, ruri: "sip:svc.example.com"}
+				data := ids.request(reqOpts{cseq: 1, noToTag: true, id: id, method: "INVITE", srcAddr: "10.1.0.1:5060"})
+				d.sendRequest("10.1.0.1:5060", 0, data, id)
+				w.K.Settle(5 * time.Second)
+				for _, e := range w.decodeEmissions(0) {
+					if e.ID == id && e.E.Err == "" {
+						lateReq, lateFrom = e, e.E.Dst
+					}
+				}
 			}
 			// let exactly one poll happen
 			var racing []string
@@ -469,6 +550,19 @@ func execMembership(t *testing.T, p *Plan) *Result {
 				models[n].apply(sc[idx])
 				if sc[idx].Fail || len(sc[idx].IPs) == 0 {
 					w.stat(fmt.Sprintf("probe:consecutive-failure-%d", min4(models[n].failed)))
+				}
+			}
+			if lateReq != nil && lateReq.M != nil {
+				gone := true
+				for _, m := range modelSet() {
+					gone = gone && m != lateFrom
+				}
+				if gone {
+					resp := buildResponse(lateReq.M, respPlan{status: 180, toTag: "lt180", expires: -1}, lateReq.ID)
+					w.N.InjectUDP(udpAddr(lateFrom), udpAddr(hostPort(l.Addr, l.UDP)), resp, 100*time.Microsecond)
+					w.K.Settle(5 * time.Second)
+					vanished = lateFrom
+					w.stat("probe:late-answer-from-a-vanished-address")
 				}
 			}
 			// a racing dispatch saw the rotation before or after the change: one target at most, a member of either
